@@ -221,7 +221,7 @@ HistorySteps ==
 EmitHist ==
     (EMIT /\ MODE = "history" /\ stage' \in {"h1", "h2", "h3", "h4"}) =>
         PrintT("SCRIPT " \o ToJson([fam |-> "afftree", k |-> K, q |-> 1, mode |-> "history", lhs |-> ScriptOf(hist'.init, K, "dfs"),
-                                     steps |-> hist'.steps, faults |-> <<>>, all |-> FALSE]))
+                                     steps |-> hist'.steps, faults |-> <<>>, all |-> FALSE, exp |-> [root |-> h'.root, nodes |-> ObsSeq(h')]]))
 Emit ==
     EmitHist /\
     (EMIT /\ stage' = "done") =>
@@ -240,7 +240,7 @@ Emit ==
                                           faults |-> <<>>, faultsweep |-> NG]))
         ELSE IF MODE \in {"prune", "pruneg", "prunea"}
         THEN PrintT("SCRIPT " \o ToJson([fam |-> "afftree", k |-> K, q |-> 1, mode |-> "history", lhs |-> ScriptOf(f'.abs, K, f'.lay),
-                                          steps |-> HistorySteps, faults |-> <<>>]))
+                                          steps |-> HistorySteps, faults |-> <<>>, exp |-> [root |-> h'.root, nodes |-> ObsSeq(h')]]))
         ELSE
         PrintT("SCRIPT " \o ToJson(
             [fam |-> IF MODE = "regions" THEN "regions" ELSE "afftree", sched |-> sched', k |-> K, q |-> IF op' \in {"div", "div_aff"} THEN 12 ELSE 1, mode |-> MODE,
